@@ -29,6 +29,21 @@ ASSUMPTIONS = ["names are resolved relative to the array directory; symlink alia
 EXHAUSTIVE = "method x protected target x spelling x flag matrix for Array and RaggedArray"
 METHODS = ['write_txt', 'write_jsonfile', 'write_jsondict', 'update_jsondict', 'delete_files'] + \
           ['open_file:' + m for m in ['w', 'a', 'x', 'r+', 'rb+', 'r+b', 'wb', 'ab', 'w+', 'a+', 'xb']]
+def all_write_modes():
+    """Every mode string Python's open() accepts that allows writing: one of w / a / x (or r together with '+'), optionally '+',
+    optionally one of b / t - the characters in any order ('wb', 'bw', '+bw', 'tw', ...)."""
+    seen = []
+    for base in 'wax':
+        for plus in ('', '+'):
+            for bt in ('', 'b', 't'):
+                for perm in itertools.permutations(base + plus + bt):
+                    seen.append(''.join(perm))
+    for bt in ('', 'b', 't'):
+        for perm in itertools.permutations('r+' + bt):
+            seen.append(''.join(perm))
+    return sorted(set(seen))
+
+
 SPELLINGS = ['str', 'Path', './', './/', 'detour', 'detour-values', 'dupsep', 'abs', 'absPath', 'slash', 'dot-mid', 'updown', 'updown2', 'via-other-name', 'ulink', 'fspath-obj', 'str-subclass']
 MUST_HIT = ['spell:fspath-obj', 'spell:str-subclass', 'handle-opened-through-symlinked-directory', 'spell:ulink', 'spell:via-other-name', 'm:delete_files:bare', 'env:c-locale', 'handle-opened-by-relative-path', 'spell:updown', 'path-recreated-as-other-kind', 'kind:Array', 'kind:Ragged', 'spell:Path', 'spell:./', 'spell:detour', 'target:subdir-file', 'target:dirname', 'target:absent',
             'target:new-in-subdir', 'user:json', 'user:txt', 'user:overwrite-refused', 'user:delete', 'mixed-delete', 'read-protected-ok'] + \
@@ -497,6 +512,8 @@ def matrix():
                     yield {'f': 'prot', 'kind': kind, 'm': method, 't': list(t), 's': how, 'flag': flag, 'openvia': 'symlink'}
         for t, how in itertools.product(targets(kind), ('str', 'Path', './', 'abs', 'updown')):
             yield {'f': 'prot', 'kind': kind, 'm': 'delete_files:bare', 't': list(t), 's': how, 'flag': False}
+        for mode, t, how in itertools.product(all_write_modes(), targets(kind), ('str', 'detour')):       # every spelling of a writing mode
+            yield {'f': 'prot', 'kind': kind, 'm': 'open_file:' + mode, 't': list(t), 's': how, 'flag': False}
         for t, _ in targets(kind)[:3]:
             for how in ('str', 'Path', './', 'detour'):
                 for pos in ('first', 'last', 'middle'):
